@@ -228,8 +228,21 @@ def explore(check, jobs=NPROC):
     results = {}
     ctx = multiprocessing.get_context('fork')
     if jobs > 1 and len(shards) > 1:
+        # safety net: the shards of every check finish within minutes; when NO shard at all finishes for this long an execution of the
+        # library does not terminate - the check can then decide nothing and says so instead of hanging
+        patience = float(os.environ.get('VERIF_SHARD_PATIENCE', 2400 if check.tier == 'quick' else 7200))
         with ctx.Pool(min(jobs, len(shards))) as pool:
-            for idx, acc, err in pool.imap_unordered(_worker, [(i, shards[i]) for i in order], chunksize=1):
+            it = pool.imap_unordered(_worker, [(i, shards[i]) for i in order], chunksize=1)
+            while True:
+                try:
+                    idx, acc, err = it.next(timeout=patience)
+                except StopIteration:
+                    break
+                except multiprocessing.TimeoutError:
+                    print(f'HARNESS-ERROR no shard finished within {patience:.0f}s: an execution does not terminate '
+                          f'({len(results)} of {len(shards)} shards done)')
+                    pool.terminate()
+                    sys.exit(2)
                 if err:
                     print('HARNESS-ERROR shard', idx, err)
                     sys.exit(2)
